@@ -37,7 +37,7 @@ def one(name):
         m = re.match(r"check (C\d+) (\w+): exit=(\d+) (\d+) violation line\(s\) ?(.*)", l)
         if m: checks[m.group(1)] = {"tier": m.group(2), "exit": int(m.group(3)), "violation_lines": int(m.group(4)), "classes": [c for c in m.group(5).split(";") if c.strip()]}
     prop = old["breaks_property"]
-    rnd = "r3" if name.startswith("R3-") else "r2" if name.startswith("R2-") else "r1"
+    rnd = "r4" if name.startswith("R4-") else "r3" if name.startswith("R3-") else "r2" if name.startswith("R2-") else "r1"
     h = hist.get(rnd, {}).get(prop, ["", ""])
     meta = {
         "name": name, "round": int(rnd[1]), "breaks_property": prop, "summary": old["summary"], "needs_to_manifest": old["needs_to_manifest"],
